@@ -414,7 +414,7 @@ Proof.
   assert (Harr2 : forall r, space0 (blanks (l_gap2 y) ++ array_text y dst ++ r) = array_text y dst ++ r).
   { intro r. apply space0_app. destruct dst; reflexivity. }
   destruct dst as [|t [|t2 dst]]; [congruence| |].
-  - destruct (l_bracket y).
+  - destruct (l_bracket y && (lo =? hi)).
     + rewrite Harr, Harr2. rewrite range_target_array_rt by assumption. cbn [pbind].
       rewrite multispace1_app by exact Hr. reflexivity.
     + inversion Hw as [|? ? Ht _]; subst. rewrite space0_app by reflexivity.
